@@ -607,6 +607,29 @@ func isItemAllowedByTypename(obj *astjson.Value, typeNames []string) bool {
 	return slices.Contains(typeNames, __typeNameStr)
 }
 
+func hasArrayItem(values []*astjson.Value) bool {
+	for _, value := range values {
+		if value != nil && value.Type() == astjson.TypeArray {
+			return true
+		}
+	}
+	return false
+}
+
+// appendFlattened appends values to dst; items of nested arrays (a field of a list of lists type,
+// e.g. [[Entity]]) are appended in place of the nested array, so that the selected items are
+// always the objects of the list and never a list itself.
+func appendFlattened(a arena.Arena, dst []*astjson.Value, values []*astjson.Value) []*astjson.Value {
+	for _, value := range values {
+		if value != nil && value.Type() == astjson.TypeArray {
+			dst = appendFlattened(a, dst, value.GetArray())
+			continue
+		}
+		dst = arena.SliceAppend(a, dst, value)
+	}
+	return dst
+}
+
 func selectItems(a arena.Arena, items []*astjson.Value, element FetchItemPathElement) []*astjson.Value {
 	if len(items) == 0 {
 		return nil
@@ -625,7 +648,11 @@ func selectItems(a arena.Arena, items []*astjson.Value, element FetchItemPathEle
 			return nil
 		}
 		if field.Type() == astjson.TypeArray {
-			return field.GetArray()
+			values := field.GetArray()
+			if !hasArrayItem(values) {
+				return values
+			}
+			return appendFlattened(a, arena.AllocateSlice[*astjson.Value](a, 0, len(values)), values)
 		}
 		return []*astjson.Value{field}
 	}
@@ -639,7 +666,7 @@ func selectItems(a arena.Arena, items []*astjson.Value, element FetchItemPathEle
 			continue
 		}
 		if field.Type() == astjson.TypeArray {
-			selected = arena.SliceAppend(a, selected, field.GetArray()...)
+			selected = appendFlattened(a, selected, field.GetArray())
 			continue
 		}
 		selected = arena.SliceAppend(a, selected, field)
